@@ -113,10 +113,23 @@ def write_nifti_image(data: Tensor, grid: Grid, path: PathUri) -> None:
         raise ValueError("write_image() data.ndim must be equal to grid.ndim or grid.ndim + 1")
     # Reverse order of axes
     dataobj = np.transpose(data.numpy(), axes=tuple(reversed(range(data.ndim))))
-    # Convert to NIfTI RAS convention
-    affine = grid.affine().cpu().numpy()
+    # Scalar image has no channel dimension, channels of vector image are stored in the 5th dimension
+    # https://github.com/InsightSoftwareConsortium/ITK/blob/3454d857dc46e4333ad1178be8c186547fba87ef/Modules/IO/NIFTI/src/itkNiftiImageIO.cxx#L1112-L1156
+    D = grid.ndim
+    num_channels = dataobj.shape[-1]
+    if num_channels == 1:
+        dataobj = dataobj.reshape(dataobj.shape[:D])
+    else:
+        dataobj = dataobj.reshape(dataobj.shape[:D] + (1,) * (4 - D) + (num_channels,))
+    # Homogeneous index to world transformation, converted to NIfTI RAS convention
+    affine = np.eye(4, dtype=np.float64)
+    affine[:D, :D] = grid.affine().cpu().numpy()
+    affine[:D, 3] = grid.origin().cpu().numpy()
     affine[:2] *= -1
+    image = nib.Nifti1Image(dataobj, affine)
+    if num_channels > 1:
+        image.header.set_intent("vector")
     with StorageObject.from_path(path) as obj:
         local_path = unlink_or_mkdir(obj.path)
-        nib.save(nib.Nifti1Image(dataobj, affine), str(local_path))
+        nib.save(image, str(local_path))
         obj.push(force=True)
